@@ -80,6 +80,26 @@ ASSIGNMENTS_ORDER3 = [
 ]
 
 
+def systematic_assignments():
+    """Every expression shape with three operand occurrences: both parenthesisations x every pair
+    of operators from + - *, over five leaf triples (vectors; with a literal; with a scalar;
+    matrices; a contraction)."""
+    triples = [
+        ("a(i)", ["b(i)", "c(i)", "d(i)"]),
+        ("a(i)", ["b(i)", "c(i)", "2"]),
+        ("a(i)", ["e()", "c(i)", "d(i)"]),
+        ("A(i,j)", ["B(i,j)", "C(i,j)", "D(i,j)"]),
+        ("a(i)", ["B(i,j)", "c(j)", "d(i)"]),
+    ]
+    out = []
+    for target, (x, y, z) in triples:
+        for o1 in "+-*":
+            for o2 in "+-*":
+                out.append(f"{target} = ({x} {o1} {y}) {o2} {z}")
+                out.append(f"{target} = {x} {o1} ({y} {o2} {z})")
+    return out
+
+
 def all_formats(order):
     for modes in itertools.product([Mode.dense, Mode.compressed], repeat=order):
         for perm in itertools.permutations(range(order)):
@@ -102,7 +122,12 @@ def family(tier="quick", seed=0, per_assignment=None, assignments=None):
     quick: <= per_assignment format combinations per assignment (seeded sample that always
     contains all-dense, all-compressed and one non-identity ordering); thorough: far more."""
     rng = random.Random(seed)
-    texts = list(assignments or (ASSIGNMENTS_QUICK + ASSIGNMENTS_ORDER3))
+    if assignments is None:
+        sysm = systematic_assignments()
+        if tier == "quick":
+            sysm = random.Random(seed + 7).sample(sysm, 30)
+        assignments = ASSIGNMENTS_QUICK + ASSIGNMENTS_ORDER3 + sysm
+    texts = list(assignments)
     if per_assignment is None:
         per_assignment = 12 if tier == "quick" else 200
     out = []
